@@ -33,9 +33,9 @@ func main() {
 			"Option lattice: OptimizeEmissions x OptimizeTransitions for the vector HMM (estimator fields), the direct generic.BaumWelchAlgorithm route (arguments) and the matrix HMM; OptimizeEmissions x OptimizeWeights for scalar, vector and matrix mixtures; same EM oracle plus: the block that is not optimised is bitwise the initial one at every hook call. " +
 			"Observations of different lengths: vectorEstimator.ScalarIid (dimension -1) on every data set of 1..4 observations, each the prefix of length 1..3 of one of 2 (thorough 3) template vectors (all length profiles: equal, increasing, decreasing, mixed) x {nil} u {0,log 1/2,log 1/4}^n x sigmaMin, exact weighted MLE + perturbation oracle; EM of vector mixtures with ScalarIid(normal) / ScalarIid(poisson) components on every SEQUENCE of <=3 (thorough 4) such observations x the initial lattice. " +
 			"Mixture weights: at every step of every mixture trajectory with OptimizeWeights the new weights equal the mean responsibilities under the previous model (harness-computed) within 1e-9. " +
-			"Thread pools of T=2,3 threads with the job->thread assignment fixed by the harness through the real pool's own rules (pool.go; no timing): (i) the estimator runs as thread c=0..T-1 and every job of every phase is executed by thread c (for c!=0 thread 0 never executes anything): every closed-form family (Estimate and batch) x data sets of size 1..3 x all weight vectors, and EM of scalar mixtures (normal, poisson, categorical, nested), discrete mixtures on summarised data, a vector mixture, vector HMMs (categorical, nested mixtures) and the matrix HMM over reduced initial lattices; (ii) scalar mixtures (normal, categorical; all multisets of 1..4 observations) and vector HMMs (data sets of 2, thorough 3, short sequences) with EVERY assignment of the E-step jobs (range chunks resp. one job per sequence) to the T threads, the same in every E-step, and - while T^jobs <= 9 (thorough 27) - every alternating pair of two different assignments (a thread that took part in one E-step and not in the next), 6 EM iterations, calling thread 0 (thorough also T-1); same EM oracle and weight oracle",
+			"Thread pools of T=2,3 threads with the job->thread assignment fixed by the harness through the real pool's own rules (pool.go; no timing): (i) the estimator runs as thread c=0..T-1 and every job of every phase is executed by thread c (for c!=0 thread 0 never executes anything): every closed-form family (Estimate and batch) x data sets of size 1..3 x all weight vectors, and EM of scalar mixtures (normal, poisson, categorical, nested), discrete mixtures on summarised data, a vector mixture, vector HMMs (categorical, nested mixtures) and the matrix HMM over reduced initial lattices; (ii) scalar mixtures (normal, categorical; all multisets of 1..4 observations) and vector HMMs (data sets of 2, thorough 3, short sequences) with EVERY assignment of the E-step jobs (range chunks resp. one job per sequence) to the T threads, the same in every E-step, and - while T^jobs <= 9 (thorough 27) - every alternating pair of two different assignments (a thread that took part in one E-step and not in the next), 6 EM iterations, calling thread 0 (thorough also T-1); same EM oracle and weight oracle; (iii) the observations of a closed-form estimation SPLIT over the threads: every family with a batch interface (scalar normal, exponential, poisson, geometric, categorical, negative binomial; vector normal, ScalarBatchId) x every data set of size 2..3 (thorough: 4 for T=2) over the family's alphabet (zeros included) x {nil} u {0,log 1/2,log 1/4}^n x EVERY assignment of the data positions to the T=2 (thorough also 3) threads that uses at least two threads: Initialize(pool), NewObservation(x_i, gamma_i, pool value of thread a[i]) executed by thread a[i], GetEstimate; calling thread 0 (thorough every thread); same exact-MLE and perturbation oracle (it does not depend on the assignment)",
 		Assume: []string{
-			"thread pools: the sequential pool everywhere; pools of 2 and 3 threads only with a job->thread assignment chosen by the harness (all jobs on the calling thread, or every assignment of the E-step jobs). Each such execution is one the real pool can produce; interleavings inside jobs, data races and agreement between schedules are C17. The E-step assignment is forced through a core that repeats the estimator's Swap/Step/Emissions over a data set wrapper with a gate at a job's first data access (as the summarised-HMM route does)",
+			"thread pools: the sequential pool everywhere; pools of 2 and 3 threads only with a job->thread assignment chosen by the harness (all jobs on the calling thread, or every assignment of the E-step jobs). Each such execution is one the real pool can produce; interleavings inside jobs, data races and agreement between schedules are C17. The E-step assignment is forced through a core that repeats the estimator's Swap/Step/Emissions over a data set wrapper with a gate at a job's first data access (as the summarised-HMM route does). Closed-form estimators with the observations split over the threads are driven through the batch interface, which takes the pool value per call: the calls are made one after the other in the order of the data positions, each by the thread it is assigned to (the execution of a range job whose items went to these threads); the range jobs of Estimate itself are only run with all jobs on one thread",
 			"exact M-step of the mixture weights = mean responsibilities under the previous model (the maximiser of the expected complete-data log-likelihood); demanded only when the weights are optimised and only for the outermost mixture",
 			"EM monotonicity is demanded for component families whose M-step is the exact maximiser of the expected complete-data log-likelihood over the configured box: normal with sigma>=sigmaMin (clamping is the exact box-constrained maximiser, and every initial sigma of the lattice lies in the box), poisson, categorical, products of these, and one EM step of an inner mixture (generalised EM); numeric M-steps are only checked for stationarity of the stand-alone numeric estimator",
 			"initial EM parameters are interior (positive weights, positive emission probabilities); starts under which the data has probability zero are only required to fail loudly",
